@@ -153,9 +153,20 @@ def check_endian_bit(F, W1):
     b = F.get('adlt::dlt::DltStandardHeader::to_write')
     if b is None:
         return
+    BIT = 2
+    hc = hdrtab.has_constants(F)
+    wt = hdrtab.writer_tables(F, b, hc) if len(hc) == 4 else None
+    if wt is not None:
+        # decided on the table of htyp bytes over all 2 x 16 valuations (byte order x optional parts)
+        W1.sites += len(wt)
+        bad = sorted(('+'.join(k) or 'none', be) for (be, k), (h, ln, n) in wt.items() if bool(h & BIT) != bool(be))
+        if bad:
+            W1.violation(('endianness-bit', b.path), 'to_write: the byte-order bit of the written htyp does not equal std_hdr.is_big_endian() for %s' % (bad[:4],), where=b.loc(None))
+        else:
+            W1.ok(sample={'byte_order_bit': BIT, 'equals_is_big_endian_for': '%d valuations of byte order x optional parts (constant propagation)' % len(wt)})
+        return
     cfg = CFG(b)
     E = ExprBuilder(cfg)
-    BIT = 2
     setters = []     # (block, guarded?)
     n_stores = 0
     for blk in b.blocks:
